@@ -542,8 +542,12 @@ fn short_type<T>(_: &T) -> String {
 fn drive_owned<D: Distribution<i64> + ChoicesDistribution>(built: Result<D, EmptySlice>, k: usize, rng: &mut SplitMix) -> RealChoice {
     match built {
         Err(EmptySlice) => RealChoice { built: "err EmptySlice".into(), num: 0, samples: vec![], panicked_in_sample: false, type_name: String::new() },
-        Ok(d) => {
-            let mut out = RealChoice { built: "ok".into(), num: d.num_choices().get(), samples: vec![], panicked_in_sample: false, type_name: short_type(&d) };
+        Ok(mut d) => {
+            // num_choices through a shared and an exclusive reference reports the same number (0 signals a mismatch)
+            let n0 = d.num_choices().get();
+            let n1 = ChoicesDistribution::num_choices(&&d).get();
+            let n2 = ChoicesDistribution::num_choices(&&mut d).get();
+            let mut out = RealChoice { built: "ok".into(), num: if n0 == n1 && n1 == n2 { n0 } else { 0 }, samples: vec![], panicked_in_sample: false, type_name: short_type(&d) };
             for _ in 0..k {
                 match std::panic::catch_unwind(std::panic::AssertUnwindSafe(|| d.sample(&mut *rng))) {
                     Ok(v) => out.samples.push((None, v)),
